@@ -1,0 +1,7 @@
+//go:build !verif
+
+package twig
+
+// vhook marks a critical point for the verification harness; without the
+// "verif" build tag it does nothing.
+func vhook(point string) {}
